@@ -7,6 +7,7 @@ import BSModel.Gen.Formatter
     c15 ffn <isXml> <fmt>                            formatter_for_name: attributes or KeyError
     c15 run <isXml> <fmt> <mode> <parent> <ng> <graph>*ng <tree>
                                                      resolve the formatter, then render
+    c15 runat <chain> <rootAttr> <fmt> <mode> <parent> <ng> <graph>*ng <tree>   like run; the flavour comes from isXmlOf
     c15 subst x|h <cps>                              substitute_xml / substitute_html (re.sub over the generated table)
     c15 substrev <cps>                               substitute_html with the alternatives listed in reverse
 
@@ -151,6 +152,25 @@ def showOut : Out → String
   | .keyError => "KeyError"
   | .badReceiver => "bad-receiver"
 
+def doRun (isXml : Bool) (fmt mode parent ng : String) (rest : List String) : String :=
+    match parseFmt fmt with
+    | none => "bad-fmt"
+    | some a =>
+      let k := ng.toNat!
+      let graph := parseGraph (rest.take k)
+      let tt := rest.drop k
+      let par := if parent == "N" then none else some (pcps parent)
+      match parseNode (tt.length + 1) tt with
+      | some (n, []) =>
+        if mode == "L" then
+          match formatterForName BS.Gen.fmtHtmlRegistry BS.Gen.fmtXmlRegistry isXml a with
+          | .keyError => "KeyError"
+          | .ok c => "[" ++ ";".intercalate ((calls c par n).map showP) ++ "]"
+        else match parseMode mode with
+          | some m => showOut (entry BS.Gen.fmtHtmlRegistry BS.Gen.fmtXmlRegistry isXml a (interpOf graph) m par n)
+          | none => "bad-mode"
+      | _ => "bad-tree"
+
 def handle : List String → String
   | ["ctor", fmt] =>
     match parseFmt fmt with
@@ -163,24 +183,12 @@ def handle : List String → String
       | .ok c => showCfg c
       | .keyError => "KeyError"
     | none => "bad-fmt"
-  | "run" :: isXml :: fmt :: mode :: parent :: ng :: rest =>
-    match parseFmt fmt with
-    | none => "bad-fmt"
-    | some a =>
-      let k := ng.toNat!
-      let graph := parseGraph (rest.take k)
-      let tt := rest.drop k
-      let par := if parent == "N" then none else some (pcps parent)
-      match parseNode (tt.length + 1) tt with
-      | some (n, []) =>
-        if mode == "L" then
-          match formatterForName BS.Gen.fmtHtmlRegistry BS.Gen.fmtXmlRegistry (isXml == "1") a with
-          | .keyError => "KeyError"
-          | .ok c => "[" ++ ";".intercalate ((calls c par n).map showP) ++ "]"
-        else match parseMode mode with
-          | some m => showOut (entry BS.Gen.fmtHtmlRegistry BS.Gen.fmtXmlRegistry (isXml == "1") a (interpOf graph) m par n)
-          | none => "bad-mode"
-      | _ => "bad-tree"
+  | "run" :: isXml :: fmt :: mode :: parent :: ng :: rest => doRun (isXml == "1") fmt mode parent ng rest
+  | "runat" :: chain :: rootAttr :: fmt :: mode :: parent :: ng :: rest =>
+    -- the flavour is computed by the model's walk over the known_xml chain (N / 0 / 1, innermost first, comma separated)
+    let ch : List (Option Bool) := (chain.splitOn ",").filterMap fun t =>
+      if t == "N" then some none else if t == "1" then some (some true) else if t == "0" then some (some false) else none
+    doRun (isXmlOf ch (rootAttr == "1")) fmt mode parent ng rest
   | ["subst", "x", s] => showP (substXml (pcps s))
   | ["subst", "h", s] => showP (reSub BS.Gen.htmlAlts (pcps s))
   | ["substrev", s] => showP (reSub BS.Gen.htmlAlts.reverse (pcps s))
